@@ -202,10 +202,12 @@ def net_mc(quick, thorough, tiers=("quick", "thorough")):
             "workers": 12, "timeout": {"quick": 600, "thorough": 10800}, "tiers": tiers, "coverage": False}
 
 ALL_MENU = "{1, 2, 3, 4, 5, 6, 7, 8, 9, 10, 11}"
-NET_MENU_QUICK = net_mc([2, "{1, 5, 6}", "{1, 2, 5, 6, 8, 9, 10}", "{1}", "FALSE", 0],
-                        [3, "{1, 2, 3, 5, 6, 7, 8}", ALL_MENU, "{1, 2}", "FALSE", 0])
+# depth-3 builder behaviours over a 7-entry menu from 4 inputs (quick) / full menu, 7 inputs (thorough)
+NET_MENU_QUICK = net_mc([3, "{1, 3, 5, 6}", "{1, 2, 3, 5, 6, 8, 10}", "{1}", "FALSE", 0],
+                        [3, "{1, 2, 3, 4, 5, 6, 7, 8}", ALL_MENU, "{1, 2}", "FALSE", 0])
 NET_FLAT = net_mc([2, "{1}", "{1}", "{1}", "FALSE", 40], [2, "{1}", "{1}", "{1}", "FALSE", 100])
-NET_FD = net_mc([2, "{1, 5}", "{1, 4, 6, 10}", "{1}", "TRUE", 0], [2, "{1, 5}", "{1, 4, 5, 6, 8, 10}", "{1}", "TRUE", 0], tiers=("thorough",))
+# network-level finite-difference theorem in TLC (depth 2)
+NET_FD = net_mc([2, "{1, 5}", "{1, 2, 4, 5, 6, 8, 10}", "{1}", "TRUE", 0], [2, "{1, 3, 5, 6}", ALL_MENU, "{1, 2}", "TRUE", 0])
 
 PROPS["C08"] = {
     "level": "model_checking",
@@ -230,3 +232,60 @@ PROPS["C08"] = {
 PROPS["C02"]["mc"].append(NET_MENU_QUICK)
 PROPS["C01"]["mc"].append(NET_MENU_QUICK)
 PROPS["C01"]["mc"].append(NET_FD)
+
+def flow_mc(mode, quick, thorough):
+    keys = ["NetSel", "MaxConnects", "MaxIter", "MaxLoops", "DataSeeds", "CheckFD"]
+    q = dict(zip(keys, quick)); q["Mode"] = mode
+    t = dict(zip(keys, thorough)); t["Mode"] = mode
+    return {"module": "MC_Flow", "consts": {"quick": q, "thorough": t}, "workers": 12, "coverage": False,
+            "timeout": {"quick": 600, "thorough": 7200}}
+
+FLOW_ASSUME = COMMON_ASSUMPTIONS + [
+    "values data/den with a power-of-two denominator are exact in f32; other denominators (mean over 3 tensors) are compared within 1e-5",
+    "'the input that was fed to layer a' is the input layer a processed (its own accumulated input when a is itself a target)",
+]
+
+PROPS["C16"] = {
+    "level": "model_checking",
+    "exhaustive": True,
+    "technique": "TLC model checking of Connect behaviours and skip dataflow in Network.tla (gradients checked against finite differences in the "
+                 "model) + exact replay into connect()/predict()/backward",
+    "level_text": "TLC enumerates every behaviour of up to MaxConnects Connect(a,b) calls (all pairs a<=b with equal element counts, incl. flat<->spatial, "
+                  "a=b, shared sources, chains, already-targeted layers) on four base networks, checks that an accepted connection is never lost "
+                  "and that with additive accumulation the specification's reverse walk equals finite differences of the network function; each "
+                  "behaviour is replayed: accept/reject per call, predict under all five accumulations, and every parameter gradient (additive) "
+                  "compared exactly",
+    "level_note": "four base networks of depth 3-4 (dense, conv, deconv, max-pool), at most 2 (3) connect calls, weights in {-1,0,1}; a second "
+                  "connection to an already-targeted layer must be rejected (keeping both is not representable in the code's data structure)",
+    "rule": "one case = one Connect behaviour on a base network, evaluated per data seed under 5 accumulations; all distinct; non-trivial = at least one accepted connection",
+    "mc": [flow_mc("skip", ["{1, 2, 3, 4}", 2, 1, 1, "{1, 2}", "TRUE"], ["{1, 2, 3, 4}", 3, 1, 1, "{1, 2, 3}", "TRUE"])],
+    "assumptions": FLOW_ASSUME,
+}
+PROPS["C17"] = {
+    "level": "model_checking",
+    "exhaustive": True,
+    "technique": "TLC model checking of loop dataflow in Network.tla (overwrite == unrolled network as an invariant) + exact replay into "
+                 "loopback()/predict() and against the real unrolled network",
+    "level_text": "TLC enumerates every loop range a<=b with matching shapes on four base networks (dense, spatial with a flattened last layer, "
+                  "deconv->max-pool), every iteration count up to the bound, input skips on/off, and checks in the model that overwrite "
+                  "accumulation equals the plain network with the range repeated k+1 times; each case is replayed under all five accumulations "
+                  "with exact comparison, and the overwrite loop is compared bitwise with a real unrolled network holding the same weights",
+    "level_note": "iterations <= 2 (3); weights in {-1,0,1}; mean over 3 tensors compared within 1e-5, everything else exactly",
+    "rule": "one case = one (network, range, iterations, input skips) evaluated under 5 accumulations; all distinct; non-trivial = all",
+    "mc": [flow_mc("loop", ["{1, 2, 3, 4}", 1, 2, 1, "{1, 2}", "FALSE"], ["{1, 2, 3, 4}", 1, 3, 1, "{1, 2, 3}", "FALSE"])],
+    "assumptions": FLOW_ASSUME,
+}
+PROPS["C11"] = {
+    "level": "model_checking",
+    "exhaustive": True,
+    "technique": "TLC model checking of the feedback-block dataflow in Network.tla (no-skip block == repeated layer list as an invariant) + exact "
+                 "replay into feedback()/predict()",
+    "level_text": "TLC enumerates five block placements (flat block before a dense layer, spatial block flattened before a dense layer, spatial "
+                  "block alone, conv+deconv pair after a conv, two dense layers between dense layers) x loop counts x the four skip-flag "
+                  "combinations x the five accumulations, checks that without skips the block equals the repeated layer list, and every case's "
+                  "prediction is compared with the real network",
+    "level_note": "loops <= 3 (4); weights in {-1,0,1}; overwrite with several sources means the last source (what the statement admits)",
+    "rule": "one case = one (placement, loops, inskips, outskips, accumulation) per data seed; all distinct; non-trivial = all",
+    "mc": [flow_mc("fb", ["{1, 2, 3, 4, 5}", 1, 1, 3, "{1, 2}", "FALSE"], ["{1, 2, 3, 4, 5}", 1, 1, 4, "{1, 2, 3}", "FALSE"])],
+    "assumptions": FLOW_ASSUME,
+}
